@@ -75,7 +75,8 @@ REGISTRY["C11"] = {
          if tier == "thorough" else []),
     "floors": lambda tier: {"distinct_nontrivial": 3000, "nontrivial.merge": 300, "nontrivial.concat": 300,
                             "nontrivial.bounds": 300, "nontrivial.prune": 300, "nontrivial.lazy": 300,
-                            "nontrivial.stack": 300, "bounds.empty_or_inverted": 50},
+                            "nontrivial.stack": 300, "nontrivial.prune_keep": 300, "nontrivial.store_stack": 300,
+                            "bounds.empty_or_inverted": 50},
 }
 
 # ------------------------------------------------------------------------------------------- C14
@@ -298,3 +299,91 @@ REGISTRY["C17"] = {
                             "list.observations_of_partial_state": 300,
                             "skiplist.iterator_outlives_list_probes": 500},
 }
+
+# ------------------------------------------------------------------------------ E1: store stepper
+E1_RULE = ("history = generated sequence of steps against the real store with flush/compaction loops in single-step "
+           "mode: put / del / batch (1-6 keys, sometimes one key twice) or, in tree mode, ingest of harness-built "
+           "SSTs with monotone timestamps; flush step; compaction step (whatever next_compaction selects: trivial "
+           "move, merge, top-level GC); verifier pass; reopen; open / advance held cursors. Key space <= 52 "
+           "adversarial keys (empty key, prefixes, last-byte neighbours, 0xff runs) with one hot key; options "
+           "sampled per history (memtable 1..4096 B, 4-16 KiB files, restart interval 1/16, L0 thresholds 1..12, "
+           "max compaction bytes 8 KiB/512 MiB, cache 0/64 MiB, manifest rollover ratio 1/2/8, six GC policies). "
+           "After EVERY step: point read of every key (C01), 2-4 scans with random bounds and cursor programs (C03), "
+           "directory diff (C08); after every maintenance step: level/lookup-order invariant from the tree shape and a "
+           "full walk of each live SST (C01), manifest ledger (C04); around every compaction: multi-version dump "
+           "before/after (C05); held cursors vs their drained twins (C07). A history ends at its first violation. ")
+
+
+def _e1_jobs(focus, tier, quick_h=10, quick_steps=80, tho_h=400, tho_steps=120):
+    js = [job("stepper", "e1", shards=16, timeout=3000, focus=focus, histories=q(tier, quick_h, tho_h),
+              steps=q(tier, quick_steps, tho_steps))]
+    if tier == "thorough":
+        js.append(job("stepper-release", "e1", flavour="release", shards=16, timeout=3000, focus=focus,
+                      histories=tho_h, steps=tho_steps * 2))
+    return js
+
+
+def _e1(prop, technique, level_text, rule_tail, floors, quick_h=10):
+    REGISTRY[prop] = {
+        "level": "exploration",
+        "technique": technique,
+        "level_text": level_text,
+        "level_note": ("Trusted: the sequential map model, the single-step hooks (they only add returns at the loop edges "
+                       "of memtable_thread/compaction_thread), independent SST walks cached by content-addressed name, "
+                       "mani::ManifestIterator for reading the ledger. Tree shapes not reached by the generated "
+                       "histories are not covered."),
+        "rule": E1_RULE + rule_tail,
+        "assumptions": ["ingested files carry timestamps above everything ingested before (tree mode)",
+                        "a batch that names a key twice applies its last entry"],
+        "jobs": (lambda p, qh: (lambda tier: _e1_jobs(p, tier, quick_h=qh)))(prop, quick_h),
+        "floors": floors,
+    }
+
+
+_e1("C01",
+    "runtime monitor: every point read after every step of generated store histories vs a sequential map model; structural invariant (levels key-ordered and non-overlapping, lookup order never goes back in time for a key, metadata matches file) evaluated on live state at quiescent points",
+    "Exploration: hundreds (quick) to tens of thousands (thorough) of single-stepped histories reaching all 16 levels, with reads and the lookup-order invariant checked in every intermediate tree state.",
+    "Non-trivial = history with >=1 merging compaction, GC or reopen; distinct = hash of the step list.",
+    lambda tier: {"distinct_nontrivial": 100, "steps.flush": 300, "steps.trivial_move": 300, "steps.merge": 40, "steps.gc": 5,
+                  "steps.reopen_with_3plus_levels": 40, "steps.verifier_pass": 40, "ops.ingest": 200, "c01.read_sweeps": 5000},
+    quick_h=12)
+
+_e1("C03",
+    "runtime monitor: range-scan cursors driven by generated programs of seek_to_first/seek_to_last/seek/next/prev under generated bounds vs a reference cursor over the model map, after every step of generated store histories",
+    "Exploration: scans with every combination of unbounded/included/excluded bounds (incl. empty and inverted ranges) and 24-call cursor programs plus full forward/backward walks, in every intermediate tree state of the histories.",
+    "Non-trivial = history with a flush (or tree mode) whose scans had >=2 live keys in range and a reversal or seek; distinct = hash of the step list.",
+    lambda tier: {"distinct_nontrivial": 100, "c03.scans_nontrivial": 20000, "c03.scans_empty_or_inverted": 3000,
+                  "steps.flush": 300, "steps.merge": 30},
+    quick_h=8)
+
+_e1("C04",
+    "runtime monitor: manifest ledger re-read from disk after every maintenance step (chain I = previous O, I = O + D, D = removed - added, fragment roll-ups, O = sum of listed, file content setsum = name = final-block setsum) plus acceptance by ManifestVerifier/LsmVerifier; tamper-rejection sweep",
+    "Exploration of fault-free histories (every transaction of every fragment re-checked) plus enumeration of single tampers on copies of real directories.",
+    "Non-trivial = history with >=1 rewriting compaction (merge or GC); distinct = hash of the step list.",
+    lambda tier: {"distinct_nontrivial": 40, "c04.transactions_checked": 50000, "c04.files_recomputed": 300,
+                  "steps.verifier_pass": 60, "steps.merge": 40, "steps.gc": 5},
+    quick_h=12)
+
+_e1("C05",
+    "runtime monitor: multiset of (key, timestamp, value-or-tombstone) over all live SSTs dumped before and after every compaction step; non-GC compactions must conserve it exactly, GC discards are checked against an independent interpreter of the policy language and against the discard setsum; store-free GarbageCollector monitor over enumerated per-key patterns",
+    "Exploration: every compaction the selector chooses in the generated histories (4 KiB target/minimum file size, 1-3 KiB values, a hot key with many versions so versions straddle output files).",
+    "Non-trivial = history with a compaction of >=2 inputs; distinct = hash of the step list.",
+    lambda tier: {"distinct_nontrivial": 40, "c05.compactions_with_2plus_inputs": 60, "c05.gc_with_nonempty_discard": 5,
+                  "c05.compactions_with_2plus_outputs": 10},
+    quick_h=12)
+
+_e1("C07",
+    "runtime monitor: cursors held across writes, rollovers, flushes, compactions, GCs and verifier passes must reproduce the sequence their twin cursor (opened at the same moment, drained at once) produced; skip-list allocation registry asserts liveness of every node dereferenced",
+    "Exploration: 1-3 held cursors per history advanced forward and backward between store events; sst cache disabled so retired files are not masked. Memory side: allocation registry (quick), ASan/TSan in the thorough tier.",
+    "Non-trivial = history in which a held cursor was advanced after >=1 store event since it was opened; distinct = hash of the step list.",
+    lambda tier: {"distinct_nontrivial": 100, "c07.cursor_advances_after_store_events": 1500, "c07.cursors_opened": 500,
+                  "steps.flush": 200, "steps.merge": 20},
+    quick_h=10)
+
+_e1("C08",
+    "runtime monitor: directory listings of sst/, trash/, root, mani/, verify/ before and after every step; every file that left its place is checked against the committed manifest on disk, the live sets of held cursors, the contents of the trashed log and the fragments the verifier has processed; reopen and full read-back after verifier passes",
+    "Exploration of histories with frequent verifier passes and reopens; crash points inside verifier passes and trash moves are swept by the C02 engine.",
+    "Non-trivial = history in which >=1 file left sst/, the root or trash/; distinct = hash of the step list.",
+    lambda tier: {"distinct_nontrivial": 100, "c08.ssts_left_sst_dir": 500, "c08.logs_left_root": 300,
+                  "c08.trash_entries_unlinked": 200, "c08.reopens_after_verifier_pass": 30},
+    quick_h=10)
